@@ -1,32 +1,101 @@
+import BddVerif.Core.ApplyCanon
 import BddVerif.Drive.Tables
 import BddVerif.Gen.OpTables
 /-!
 # C01 — logical operators compute the pointwise Boolean function of their operands
 
-Property theorems only (helper lemmas live under `Core/`). The tables `Gen.and_ … Gen.ite_` are
-regenerated from `src/op_function.rs` / `ite_function` on every run, so the theorems below are
-re-checked against what the code says now.
+Property theorems only (helper lemmas live under `Core/` and `Lemmas/`). The tables
+`Gen.and_ … Gen.ite_` are regenerated from `src/op_function.rs` / `ite_function` on every run, so
+the theorems below are re-checked against what the code says now. `applyWithFlip` is the executable
+model of `apply_with_flip` (Model/Apply.lean) that the driver replays against the implementation.
+
+Operands are only required to be well formed *by level* (`WFo`: terminals exact, variables below
+`n`, links in range, variables strictly increasing along links) — any shape, constants, skipped
+levels, non-canonical numbering. `evW L n v (root L)` is the value of operand `L` at valuation `v`.
 -/
 namespace B.Props.C01
 open B B.Drive B.Gen
 
-/-- "the six built-in tables never answer on partial information unless every completion agrees
-    with the answer", and they are total on known arguments (executable form, all 9 inputs). -/
+/-- **binary_op with any consistent table is the pointwise connective**, for all operands over any
+    number of variables and every valuation. -/
+theorem apply_pointwise (L R : Arr) (n : Nat) (op : Op2) (c : Bool → Bool → Bool)
+    (hL : WFo L n) (hR : WFo R n) (hc : Consistent op c) (v : Nat → Bool) :
+    den (applyWithFlip L R op none none none) v = c (evW L n v (root L)) (evW R n v (root R)) := by
+  have := applyWithFlip_den L R n op c none none none hL hR hc
+    (fun _ h => by cases h) (fun _ h => by cases h) (fun _ h => by cases h) v
+  simpa [inv] using this
+
+/-- **eager (short-circuiting) and lazy tables of the same connective give the same result** —
+    not merely the same function: the identical node array. -/
+theorem eager_lazy_same (L R : Arr) (n : Nat) (op1 op2 : Op2) (c : Bool → Bool → Bool)
+    (hL : WFo L n) (hR : WFo R n) (h1 : Consistent op1 c) (h2 : Consistent op2 c) :
+    applyWithFlip L R op1 none none none = applyWithFlip L R op2 none none none :=
+  apply_eager_lazy L R n op1 op2 c none none none hL hR h1 h2
+    (fun _ h => by cases h) (fun _ h => by cases h) (fun _ h => by cases h)
+
+/-- the result is the canonical array of the pointwise function (so it only depends on the function) -/
+theorem apply_canonical_form (L R : Arr) (n : Nat) (op : Op2) (c : Bool → Bool → Bool)
+    (hL : WFo L n) (hR : WFo R n) (hc : Consistent op c) :
+    applyWithFlip L R op none none none =
+      canon n (fun v => c (evW L n v (root L)) (evW R n v (root R))) := by
+  have := applyWithFlip_eq_canon L R n op c none none none hL hR (numVars_of_wf hL) hc
+    (fun _ h => by cases h) (fun _ h => by cases h) (fun _ h => by cases h)
+  simpa [inv] using this
+
+/-- **the six built-in tables never answer on partial information unless every completion agrees
+    with the answer**, and they are total on known arguments: each is `Consistent` with its connective.
+    (Re-proved on every run against the tables regenerated from `src/op_function.rs`.) -/
 theorem builtin_tables_consistent :
+    Consistent and_ (fun a b => a && b) ∧ Consistent or_ (fun a b => a || b) ∧
+    Consistent imp_ (fun a b => !a || b) ∧ Consistent iff_ (fun a b => a == b) ∧
+    Consistent xor_ (fun a b => a != b) ∧ Consistent and_not_ (fun a b => a && !b) := by
+  refine ⟨?_, ?_, ?_, ?_, ?_, ?_⟩ <;> constructor <;> decide
+
+/-- and/or/xor/imp/iff/and_not of `Bdd` compute their connective pointwise (instances of
+    `apply_pointwise` for the regenerated tables). -/
+theorem builtin_pointwise (L R : Arr) (n : Nat) (hL : WFo L n) (hR : WFo R n) (v : Nat → Bool) :
+    den (applyWithFlip L R and_ none none none) v = (evW L n v (root L) && evW R n v (root R)) ∧
+    den (applyWithFlip L R or_ none none none) v = (evW L n v (root L) || evW R n v (root R)) ∧
+    den (applyWithFlip L R imp_ none none none) v = (!evW L n v (root L) || evW R n v (root R)) ∧
+    den (applyWithFlip L R iff_ none none none) v = (evW L n v (root L) == evW R n v (root R)) ∧
+    den (applyWithFlip L R xor_ none none none) v = (evW L n v (root L) != evW R n v (root R)) ∧
+    den (applyWithFlip L R and_not_ none none none) v = (evW L n v (root L) && !evW R n v (root R)) := by
+  obtain ⟨h1, h2, h3, h4, h5, h6⟩ := builtin_tables_consistent
+  exact ⟨apply_pointwise L R n _ _ hL hR h1 v, apply_pointwise L R n _ _ hL hR h2 v,
+    apply_pointwise L R n _ _ hL hR h3 v, apply_pointwise L R n _ _ hL hR h4 v,
+    apply_pointwise L R n _ _ hL hR h5 v, apply_pointwise L R n _ _ hL hR h6 v⟩
+
+/-- the executable consistency check used by the driver for arbitrary 9-character tables, on the
+    built-in tables (all 9 inputs), with the connective numbers the harness uses -/
+theorem builtin_tables_check :
     consistent2 and_ 8 = true ∧ consistent2 or_ 14 = true ∧ consistent2 imp_ 11 = true ∧
     consistent2 iff_ 9 = true ∧ consistent2 xor_ 6 = true ∧ consistent2 and_not_ 4 = true := by
   decide
 
-/-- the connective numbers used above are the intended connectives -/
 theorem connective_numbers :
     (∀ a b, conn2 8 a b = (a && b)) ∧ (∀ a b, conn2 14 a b = (a || b)) ∧
     (∀ a b, conn2 11 a b = (!a || b)) ∧ (∀ a b, conn2 9 a b = (a == b)) ∧
     (∀ a b, conn2 6 a b = (a != b)) ∧ (∀ a b, conn2 4 a b = (a && !b)) := by
   decide
 
-/-- `ite_function` is consistent with if-then-else (all 27 inputs) -/
-theorem ite_table_consistent : consistent3 ite_ 0xCA = true := by decide
+/-- `ite_function` (regenerated) answers only when every completion agrees with if-then-else (27 inputs) -/
+theorem ite_table_check : consistent3 ite_ 0xCA = true := by decide
 
 theorem ite_connective : ∀ a b c, conn3 0xCA a b c = (if a then b else c) := by decide
+
+/-! ### Non-vacuity: the hypotheses are met by concrete, non-trivial operands -/
+
+/-- x0 ∧ x2 over three variables: the root skips level 1 -/
+def exL : Arr := #[⟨3, 0, 0⟩, ⟨3, 1, 1⟩, ⟨2, 0, 1⟩, ⟨0, 0, 2⟩]
+/-- the constant true over three variables -/
+def exR : Arr := #[⟨3, 0, 0⟩, ⟨3, 1, 1⟩]
+
+example : WFo exL 3 ∧ WFo exR 3 :=
+  ⟨wfoB_sound (by decide), wfoB_sound (by decide)⟩
+
+/-- the theorem pins the model's concrete output (the kernel evaluates `canon`, not the `HashMap`) -/
+example : applyWithFlip exL exR and_ none none none = exL :=
+  (apply_canonical_form exL exR 3 and_ _ (wfoB_sound (by decide)) (wfoB_sound (by decide))
+    builtin_tables_consistent.1).trans (by decide)
 
 end B.Props.C01
